@@ -16,7 +16,7 @@ import random
 from harness.core import Ctx, Failure, Broken, LeanDriver, Prop, Result
 
 CTXS = ["P", "PA", "B"]
-SIGS = ["sa", "sb"]
+SIGS = ["sa", "sa2"]          # one signal name is a proper prefix of the other
 # who connects to whom (client -> servers)
 LINKS = {"P": [], "PA": ["P"], "B": ["P", "PA"]}
 
@@ -28,9 +28,11 @@ LINKS = {"P": [], "PA": ["P"], "B": ["P", "PA"]}
 def gen_spec(rng: random.Random, big: bool) -> dict:
     nctx = rng.choice([2, 2, 3])
     ctxs = CTXS[:nctx]
-    objs = {"P": ["pub", "pub2"] if rng.random() < 0.5 else ["pub"]}
+    # object names with prefix relations (pm < pm1 < pm10): the key selection of handle_object_removed and
+    # handle_peer_context_removed is a string-prefix test
+    objs = {"P": ["pm1", "pm10"] + (["pm"] if rng.random() < 0.4 else [])}
     if nctx == 3 and rng.random() < 0.5:
-        objs["PA"] = ["apub"]
+        objs["PA"] = ["pm1"]
     nrcv = rng.randint(2, 5)
     rcvs = [rng.choice(ctxs[1:] if rng.random() < 0.8 else ctxs) for _ in range(nrcv)]
     live_ctx = set(ctxs)
@@ -183,11 +185,17 @@ def run_c08(seed, spec: dict, change_points=None, trace_handler: bool = False, p
             def check_quiescent(si, step):
                 """oracle, part 1: tables of the real SignalManagers at quiescence"""
                 racing_rm = [m for m in step["main"] if m[0] == "rm"]
+
+                def tag_for(pname, ob, sg):
+                    """':remove-racing-subscribe' iff the inconsistent key belongs to the object removed in this very step
+                    and a subscribe to exactly that (object, signal) was racing with the removal"""
+                    for (_, c, o) in racing_rm:
+                        if c == pname and tr.oid(o) == ob and any(
+                                op[0] == "sub" and op[2] == c and op[3] == o and tr.sid(op[4]) == sg
+                                for lane in step["lanes"] for op in lane):
+                            return ":remove-racing-subscribe"
+                    return ""
                 tag = ""
-                if racing_rm:
-                    (_, c, o) = racing_rm[0]
-                    if any(op[0] == "sub" and op[2] == c and op[3] == o for lane in step["lanes"] for op in lane):
-                        tag = ":remove-racing-subscribe"
                 tabs = {}
                 for n in sorted(live):
                     c = tr.cid(n)
@@ -224,7 +232,7 @@ def run_c08(seed, spec: dict, change_points=None, trace_handler: bool = False, p
                             has_local = bool(loc_a.get((2 * cp, ob, sg)))
                             has_remote = cn is not None and (2 * cn + 1) in rem_p.get((ob, sg), [])
                             if has_local and not has_remote:
-                                raise StepViolation("subscriber-listens-but-publisher-does-not-transmit" + tag,
+                                raise StepViolation("subscriber-listens-but-publisher-does-not-transmit" + tag_for(p, ob, sg),
                                                     f"step {si}: {a} has receivers {loc_a[(2 * cp, ob, sg)]} on {p}.obj{ob}.sig{sg} "
                                                     f"but {p} has no remote subscription for {a}")
                             if has_remote and not has_local:
@@ -442,10 +450,10 @@ def verdict(out, viol) -> list:
 
 
 # the targeted history for DESIGN §7(l): a subscribe racing with the removal of its publisher
-RACE_SPEC = {"ctxs": ["P", "PA"], "objs": {"P": ["pub"]}, "rcvs": ["PA", "PA"],
-             "steps": [{"main": [["rm", "P", "pub"]], "lanes": [[["sub", 0, "P", "pub", "sa"]]]},
-                       {"main": [["mk", "P", "pub"]], "lanes": []},
-                       {"main": [], "lanes": [[["sub", 1, "P", "pub", "sa"]]]}],
+RACE_SPEC = {"ctxs": ["P", "PA"], "objs": {"P": ["pm1"]}, "rcvs": ["PA", "PA"],
+             "steps": [{"main": [["rm", "P", "pm1"]], "lanes": [[["sub", 0, "P", "pm1", "sa"]]]},
+                       {"main": [["mk", "P", "pm1"]], "lanes": []},
+                       {"main": [], "lanes": [[["sub", 1, "P", "pm1", "sa"]]]}],
              "policy": "pct"}
 
 
@@ -558,6 +566,21 @@ class C08(Prop):
         cases = [(ctx.rng.randrange(1 << 30), gen_spec(ctx.rng, not ctx.quick), None, False) for _ in range(n)]
         for i in range(0, len(cases), 50):
             self._run_batch(ctx, cases[i:i + 50], res, "random")
+        # fixed histories with name families in prefix relation (pm < pm1 < pm10, sa < sa2, P < PA): removal of the
+        # shorter-named object / disconnect from the shorter-named context must not touch the longer-named one
+        fixed = []
+        for (short, long_) in (("pm1", "pm10"), ("pm", "pm1"), ("pm", "pm10")):
+            fixed.append({"ctxs": ["P", "PA", "B"], "objs": {"P": [short, long_], "PA": [long_]}, "rcvs": ["PA", "B", "B", "P"],
+                          "steps": [{"main": [], "lanes": [[["sub", 0, "P", long_, "sa"], ["sub", 0, "P", short, "sa"], ["sub", 0, "P", long_, "sa2"]],
+                                                           [["sub", 1, "P", long_, "sa"], ["sub", 2, "PA", long_, "sa"], ["sub", 3, "P", long_, "sa2"]]]},
+                                    {"main": [["rm", "P", short]], "lanes": []},
+                                    {"main": [], "lanes": [[["unsub", 0, "P", long_, "sa"]], [["sub", 2, "P", long_, "sa"]]]},
+                                    {"main": [["disconnect", "B", "P"]], "lanes": []},
+                                    {"main": [["mk", "P", short]], "lanes": [[["sub", 0, "P", short, "sa2"]]]},
+                                    {"main": [["rm", "P", long_]], "lanes": []}],
+                          "policy": "weighted"})
+        self._run_batch(ctx, [(ctx.rng.randrange(1 << 30), sp, None, False) for sp in fixed for _ in range(ctx.scale(2, 10))],
+                        res, "prefix_names")
         # targeted sweep of the subscribe-vs-removal window (every run; this is how §7(l) is re-found)
         base = ctx.rng.randrange(1 << 20)
         self._race_sweep(ctx, res, [base + i for i in range(ctx.scale(16, 40))])
@@ -575,15 +598,15 @@ class C08(Prop):
         if any(True for f in res.failures):
             return res
         # systematic: every change point of a dense history (removal, disconnect and stop each racing with subscribers)
-        dense = {"ctxs": ["P", "PA"], "objs": {"P": ["pub"]}, "rcvs": ["PA", "PA", "P"],
-                 "steps": [{"main": [], "lanes": [[["sub", 0, "P", "pub", "sa"], ["sub", 1, "P", "pub", "sa"], ["unsub", 0, "P", "pub", "sa"]],
-                                                  [["sub", 2, "P", "pub", "sa"]]]},
-                           {"main": [], "lanes": [[["unsub", 1, "P", "pub", "sa"], ["sub", 1, "P", "pub", "sa"]], [["sub", 0, "P", "pub", "sb"]]]},
-                           {"main": [["rm", "P", "pub"]], "lanes": [[["unsub", 0, "P", "pub", "sb"]]]},
-                           {"main": [["mk", "P", "pub"]], "lanes": [[["sub", 0, "P", "pub", "sa"]]]},
-                           {"main": [["disconnect", "PA", "P"]], "lanes": [[["unsub", 0, "P", "pub", "sa"], ["sub", 1, "P", "pub", "sb"]]]},
+        dense = {"ctxs": ["P", "PA"], "objs": {"P": ["pm1"]}, "rcvs": ["PA", "PA", "P"],
+                 "steps": [{"main": [], "lanes": [[["sub", 0, "P", "pm1", "sa"], ["sub", 1, "P", "pm1", "sa"], ["unsub", 0, "P", "pm1", "sa"]],
+                                                  [["sub", 2, "P", "pm1", "sa"]]]},
+                           {"main": [], "lanes": [[["unsub", 1, "P", "pm1", "sa"], ["sub", 1, "P", "pm1", "sa"]], [["sub", 0, "P", "pm1", "sa2"]]]},
+                           {"main": [["rm", "P", "pm1"]], "lanes": [[["unsub", 0, "P", "pm1", "sa2"]]]},
+                           {"main": [["mk", "P", "pm1"]], "lanes": [[["sub", 0, "P", "pm1", "sa"]]]},
+                           {"main": [["disconnect", "PA", "P"]], "lanes": [[["unsub", 0, "P", "pm1", "sa"], ["sub", 1, "P", "pm1", "sa2"]]]},
                            {"main": [["connect", "PA", "P"]], "lanes": []},
-                           {"main": [["stop", "P"]], "lanes": [[["sub", 1, "P", "pub", "sa"]]]}],
+                           {"main": [["stop", "P"]], "lanes": [[["sub", 1, "P", "pm1", "sa"]]]}],
                  "policy": "pct"}
         r2 = Result()
         cases = []
